@@ -130,6 +130,7 @@ def writers_case(case, sess: Session):
                     os.environ[k] = v
         sess.evaluations += 1
         sess.count("concurrent_writer_runs")
+        sess.sample({"kind": "concurrent-writers", **case, "rotations": rotations[0]})
         for who, e in errors:
             sess.violation("writer-raised", case, {"who": who, "exc": e[:300]})
         if errors:
